@@ -266,6 +266,10 @@ fn run_group(args: &Args, rep: &mut Report, g: &Group, sub: usize) {
                     check_step(&g.cfg, &pre, &ghost, op, &out, &post, &mut f);
                     rep.distinct(outcome_class(op, &out));
                     for (sig, detail) in f {
+                        // the generation counts a read reports for the samples of older generations are part of the
+                        // instance life cycle as well (seeded change C22-2): C22 reports that clause of the SampleInfo
+                        // comparison under its own name
+                        let sig = if id == "C22" && sig == "C20/sample-info/generation_counts" { "C22/sample-info/generation_counts".to_string() } else { sig };
                         if sig.starts_with(id) || sig.starts_with("ANY/") {
                             let mut ops: Vec<Value> = h.iter().map(op_json).collect();
                             ops.push(op_json(op));
